@@ -372,6 +372,7 @@ static inline void run_long(const std::vector<std::string> &w, out &o)
     {
         exact_buf in(p), outb(2 * n + 4);
         ret = gstuffing((const char *)in.p, n, (char *)outb.p, ctx);
+        if (ret < 2 || (size_t)ret > 2 * n + 4 || outb.p[ret - 1] != a.stop) o.fail("int return value of the encoder is not the frame length");
         f.assign(outb.p, outb.p + (ret > 0 ? ret : 0));
         bytes g = gstuffing(igris::buffer((char *)in.p, n), ctx);
         if (g != f) o.fail("self-sizing gstuffing(buffer) != gstuffing(data, size, out)");
@@ -385,7 +386,6 @@ static inline void run_long(const std::vector<std::string> &w, out &o)
         ret = leg_encode_into(p, outb.p);
         f.assign(outb.p, outb.p + (ret > 0 ? ret : 0));
     }
-    if (ret < 0 || (size_t)ret != f.size()) o.fail("int return value is not the frame length");
     frame_oracle(a, p, f, o);
     trace t = feed_stream(codec, (unsigned)(n + 2), f);
     o.result = long_summary(f, ret, t);
@@ -439,10 +439,56 @@ static inline void run_longnoise(const std::vector<std::string> &w, out &o)
 // op `premain` reports it.  A table or default context that the library initialised dynamically at namespace
 // scope would not be initialised yet at this point.
 #define PREMAIN_LINE "seq 40 16 Ea8b2c541acad/00 N I9 F Aacacadaeaeaf Eacadaea8b2c5 N S9 F V41ac A10207f7f3040 E107f20/41 N I8 F G00acad41 ls7 lf"
+#include <sys/wait.h>
 struct premain_runner
 {
     out o;
-    premain_runner() { run_seq(words(PREMAIN_LINE), o); }
+    premain_runner()
+    {
+        // only in `run` mode (gen stays pure generation); in a forked child, so that a crash before main()
+        // is the result of ONE op and not the end of the harness
+        std::string cmd;
+        if (FILE *f = fopen("/proc/self/cmdline", "r"))
+        {
+            char buf[512];
+            size_t n = fread(buf, 1, sizeof buf, f);
+            fclose(f);
+            cmd.assign(buf, n);
+        }
+        size_t z = cmd.find('\0');
+        if (z == std::string::npos || cmd.compare(z + 1, 3, "run") != 0) return;
+        int fd[2];
+        if (pipe(fd)) return;
+        pid_t pid = fork();
+        if (pid == 0)
+        {
+            close(fd[0]);
+            out c;
+            arm();
+            run_seq(words(PREMAIN_LINE), c);
+            std::string msg = c.result + "\t" + c.oracle + "\t" + c.tags;
+            (void)!write(fd[1], msg.data(), msg.size());
+            _exit(0);
+        }
+        close(fd[1]);
+        std::string msg;
+        char buf[4096];
+        ssize_t n;
+        while ((n = read(fd[0], buf, sizeof buf)) > 0) msg.append(buf, (size_t)n);
+        close(fd[0]);
+        int st = 0;
+        waitpid(pid, &st, 0);
+        size_t t1 = msg.find('\t'), t2 = t1 == std::string::npos ? t1 : msg.find('\t', t1 + 1);
+        if (!WIFEXITED(st) || WEXITSTATUS(st) != 0 || t2 == std::string::npos)
+        {
+            o.result = "CRASH before-main";
+            o.fail("the session run from a static constructor BEFORE main() crashed (something the encoders / receivers use is initialised dynamically at namespace scope?)");
+            return;
+        }
+        o.result = msg.substr(0, t1);
+        o.oracle = msg.substr(t1 + 1, t2 - t1 - 1);
+        o.tags = msg.substr(t2 + 1);
+    }
 };
 static premain_runner g_premain __attribute__((init_priority(101)));
 static inline void run_premain(out &o)
